@@ -85,3 +85,28 @@ def replay(w):
         bad, sig = True, 'helper-raises'
         obs['raised'] = repr(exc)
     return {'reproduced': bad, 'signature': sig, 'observed': obs}
+
+
+def validate(witnesses):
+    from fast_ticc.admm import unique_values as uv
+    checked = agree = skipped = 0
+    disagree = []
+    for w in witnesses:
+        nt, inp, out = w.get('notes') or {}, w.get('inputs') or {}, w.get('outputs') or {}
+        if nt.get('kind') == 'classes' and 'positions' in out:
+            got = uv._unique_variable_locations(int(inp['b']), int(inp['r']), int(inp['c']), int(nt['N']), int(nt['W']))
+            checked += 1
+            if [[int(a), int(b)] for (a, b) in got] == [[int(a), int(b)] for (a, b) in out['positions']]:
+                agree += 1
+            else:
+                disagree.append({'inputs': inp, 'real': got, 'engine': out['positions']})
+        elif nt.get('kind') == 'index' and 'index' in out:
+            got = uv._compressed_index.__wrapped__(int(inp['r']), int(inp['c']), int(nt['n']))
+            checked += 1
+            if int(got) == int(out['index']):
+                agree += 1
+            else:
+                disagree.append({'inputs': inp, 'real': got, 'engine': out['index']})
+        else:
+            skipped += 1
+    return {'checked': checked, 'agree': agree, 'skipped': skipped, 'disagree': disagree[:5]}
